@@ -1,0 +1,101 @@
+//! Fork/join shim standing in for `rayon::join` inside `stage.rs`, used by the external
+//! verification harness. Compiled only under `--cfg brood_verif`.
+//!
+//! Without an installed script this delegates to `rayon::join`. With a script installed, the two
+//! closures of every join are run sequentially on the calling thread, in the order the script
+//! dictates, and fork/join events are logged so that the fork/join structure can be read back.
+
+extern crate std;
+
+use alloc::vec::Vec;
+use std::sync::Mutex;
+
+/// An event in the fork/join log.
+#[derive(Clone, Copy, Debug, Eq, PartialEq)]
+pub enum Event {
+    /// Join number `.0` starts; `.1` tells whether the second closure runs first.
+    Fork(usize, bool),
+    /// The first-run closure of join `.0` has finished.
+    Mid(usize),
+    /// Join number `.0` has finished.
+    Join(usize),
+    /// An event recorded by the harness through [`log`].
+    User(u64),
+}
+
+struct State {
+    script: Option<Vec<bool>>,
+    next_bit: usize,
+    next_join: usize,
+    log: Vec<Event>,
+}
+
+static STATE: Mutex<State> = Mutex::new(State {
+    script: None,
+    next_bit: 0,
+    next_join: 0,
+    log: Vec::new(),
+});
+
+fn state() -> std::sync::MutexGuard<'static, State> {
+    STATE.lock().unwrap_or_else(std::sync::PoisonError::into_inner)
+}
+
+/// Installs (or with `None`, removes) a script and clears the log.
+pub fn install(script: Option<Vec<bool>>) {
+    let mut state = state();
+    state.script = script;
+    state.next_bit = 0;
+    state.next_join = 0;
+    state.log.clear();
+}
+
+/// Takes the log accumulated so far.
+pub fn take_log() -> Vec<Event> {
+    core::mem::take(&mut state().log)
+}
+
+/// Records a harness event in the log.
+pub fn log(tag: u64) {
+    state().log.push(Event::User(tag));
+}
+
+/// Stand-in for `rayon::join`.
+pub fn join<A, B, RA, RB>(oper_a: A, oper_b: B) -> (RA, RB)
+where
+    A: FnOnce() -> RA + Send,
+    B: FnOnce() -> RB + Send,
+    RA: Send,
+    RB: Send,
+{
+    let scripted = {
+        let mut state = state();
+        if let Some(script) = state.script.as_ref() {
+            let second_first = script.get(state.next_bit).copied().unwrap_or(false);
+            state.next_bit += 1;
+            let id = state.next_join;
+            state.next_join += 1;
+            state.log.push(Event::Fork(id, second_first));
+            Some((id, second_first))
+        } else {
+            None
+        }
+    };
+    match scripted {
+        None => ::rayon::join(oper_a, oper_b),
+        Some((id, false)) => {
+            let result_a = oper_a();
+            state().log.push(Event::Mid(id));
+            let result_b = oper_b();
+            state().log.push(Event::Join(id));
+            (result_a, result_b)
+        }
+        Some((id, true)) => {
+            let result_b = oper_b();
+            state().log.push(Event::Mid(id));
+            let result_a = oper_a();
+            state().log.push(Event::Join(id));
+            (result_a, result_b)
+        }
+    }
+}
